@@ -7,6 +7,7 @@ use griddle::HashSet;
 use std::collections::{BTreeMap, BTreeSet};
 use std::fmt::Write as _;
 use std::panic::{catch_unwind, AssertUnwindSafe};
+use std::sync::atomic::Ordering::SeqCst;
 
 type Set = HashSet<K, HB>;
 const NS: usize = 3;
@@ -471,6 +472,9 @@ fn op_pred(cx: &mut SCtx, kind: u64, a: usize, b: usize, par: Option<usize>) {
         _ => ra == rb,
     });
     expect(cx, "set predicate", &out, &want, &toks);
+    if kind == 3 && cx.monitors && out != want && !matches!(out, Out::P(_)) {
+        vio("C14", format!("set == returned [{}] for contents whose equality is [{}] (hashers {} and {}) in [{}]", out_str(&out), out_str(&want), cx.sets[a].as_ref().unwrap().hasher().id, cx.sets[b].as_ref().unwrap().hasher().id, toks));
+    }
 }
 /// serde on sets: Serialize (declared length + each element in order), Deserialize into another
 /// slot, deserialize_in_place over whatever the destination holds
@@ -617,6 +621,246 @@ fn ser_op(cx: &mut SCtx, s: usize, universe: u64) {
     }
 }
 
+/// an iterator of keys with a chosen lower size hint
+struct KIt(std::vec::IntoIter<K>, usize);
+impl Iterator for KIt {
+    type Item = K;
+    fn next(&mut self) -> Option<K> {
+        self.0.next()
+    }
+    fn size_hint(&self) -> (usize, Option<usize>) {
+        (self.1, None)
+    }
+}
+/// HashSet::drain_filter, consumed for j items (all if None), then dropped or forgotten; `bomb`:
+/// an element whose destructor panics if the iterator's own Drop is what drops it
+fn op_drain_filter(cx: &mut SCtx, s: usize, take: Vec<u64>, j: Option<u64>, forget: bool, bomb: Option<u64>) {
+    let toks = format!("drainfilter {} 0 {} {} {}", s, j.map_or("-".to_string(), |x| x.to_string()), forget as u8, nlist(&take));
+    let ts: BTreeSet<u64> = take.iter().cloned().collect();
+    let ts2 = ts.clone();
+    let bomb_kid = if forget { None } else { bomb.and_then(|b| cx.refs[s].get(&b).cloned()) };
+    if bomb_kid.is_some() {
+        cx.bump("drainfilter_bomb");
+    }
+    let mut seen_v: Vec<u64> = Vec::new();
+    let seen = AssertUnwindSafe(&mut seen_v);
+    let out = run(cx, toks.clone(), "drain_filter", &[s], Some(s), move |cx| {
+        let mut seen = seen;
+        let m = cx.sets[s].as_mut().unwrap();
+        let mut got: Vec<(u64, u64, u64)> = Vec::new();
+        let mut it = m.drain_filter(|k| {
+            cb();
+            seen.push(k.class);
+            ts2.contains(&k.class)
+        });
+        let mut n = 0u64;
+        while j.map_or(true, |j| n < j) {
+            match it.next() {
+                Some(k) => {
+                    got.push((k.class, k.id, 0));
+                    bury(k);
+                    n += 1;
+                }
+                None => {
+                    if it.next().is_some() {
+                        vio("C09", "HashSet::drain_filter yielded an item after None".into());
+                    }
+                    break;
+                }
+            }
+        }
+        if forget {
+            std::mem::forget(it);
+        } else {
+            match bomb_kid {
+                Some(b) if !got.iter().any(|g| g.1 == b) => {
+                    BOMB.store(b, SeqCst);
+                    let r = catch_unwind(AssertUnwindSafe(move || drop(it)));
+                    BOMB.store(0, SeqCst);
+                    if let Err(p) = r {
+                        if !p.is::<FusePanic>() {
+                            std::panic::resume_unwind(p);
+                        }
+                    }
+                }
+                _ => drop(it),
+            }
+        }
+        Out::L(got)
+    });
+    exhume();
+    if let Out::L(ref got) = out {
+        let mut want_y: Vec<(u64, u64, u64)> = Vec::new();
+        for (k, _, _) in got {
+            if let Some(kid) = cx.refs[s].remove(k) {
+                want_y.push((*k, kid, 0));
+            }
+        }
+        if !forget {
+            cx.refs[s].retain(|k, _| !ts.contains(k));
+        }
+        if cx.monitors {
+            let mut g = got.clone();
+            g.sort();
+            want_y.sort();
+            if g != want_y || got.iter().any(|(k, _, _)| !ts.contains(k)) {
+                vio("C13", format!("HashSet::drain_filter yielded something that was not in the set, twice, or that the predicate rejected in [{}]", toks));
+                vio("C09", format!("HashSet::drain_filter yielded something that was not in the set, twice, or that the predicate rejected in [{}]", toks));
+            }
+            let mut sv = seen_v.clone();
+            sv.sort();
+            let n0 = sv.len();
+            sv.dedup();
+            if sv.len() != n0 {
+                vio("C09", format!("HashSet::drain_filter called the predicate twice on one element in [{}]", toks));
+            }
+            let m = cx.sets[s].as_ref().unwrap();
+            let mut have: Vec<u64> = m.iter().map(|k| k.class).collect();
+            have.sort();
+            let want: Vec<u64> = cx.refs[s].keys().cloned().collect();
+            if have != want {
+                vio("C13", format!("after HashSet::drain_filter the set holds {} elements, the reference {} in [{}]", have.len(), want.len(), toks));
+                vio("C09", format!("after HashSet::drain_filter the set holds {} elements, the reference {} (matching elements must go, the others stay) in [{}]", have.len(), want.len(), toks));
+            }
+        }
+    }
+}
+/// HashSet::into_iter, consumed for j items, then dropped; the slot is empty afterwards
+fn op_into_iter(cx: &mut SCtx, s: usize, j: u64) {
+    let toks = format!("intoiter {} {}", s, j);
+    let out = run(cx, toks.clone(), "into_iter", &[s], Some(s), move |cx| {
+        let m = cx.sets[s].take().unwrap();
+        let n = m.len();
+        let mut it = m.into_iter();
+        let mut l = Vec::new();
+        for i in 0..j as usize {
+            if it.len() != n - i.min(n) || it.size_hint() != (n - i.min(n), Some(n - i.min(n))) {
+                vio("C08", format!("HashSet::into_iter: len() {} / size_hint {:?} after {} of {} items", it.len(), it.size_hint(), i, n));
+            }
+            match it.next() {
+                Some(k) => {
+                    l.push((k.class, k.id, 0));
+                    bury(k);
+                }
+                None => {
+                    if it.next().is_some() {
+                        vio("C08", "HashSet::into_iter yielded an item after None".into());
+                    }
+                    break;
+                }
+            }
+        }
+        drop(it);
+        Out::L(l)
+    });
+    exhume();
+    if let Out::L(l) = out {
+        if cx.monitors {
+            let mut seen = BTreeSet::new();
+            for (k, kid, _) in &l {
+                if cx.refs[s].get(k) != Some(kid) || !seen.insert(*k) {
+                    vio("C13", format!("into_iter yielded {} which the set did not hold (or twice) in [{}]", k, toks));
+                    vio("C08", format!("HashSet::into_iter yielded {} which the set did not hold (or twice)", k));
+                }
+            }
+            if l.len() as u64 != j.min(cx.refs[s].len() as u64) {
+                vio("C08", format!("HashSet::into_iter yielded {} of {} elements when asked for {}", l.len(), cx.refs[s].len(), j));
+            }
+        }
+    }
+    cx.refs[s].clear();
+}
+fn op_clone(cx: &mut SCtx, s: usize, d: usize) {
+    let toks = format!("clone {} {}", s, d);
+    cx.sets[d] = None;
+    let before = cx.sets[s].as_ref().map(dump_str);
+    let out = run(cx, toks.clone(), "clone", &[s, d], None, move |cx| {
+        let c = cx.sets[s].as_ref().unwrap().clone();
+        let id = c.hasher().id;
+        cx.sets[d] = Some(c);
+        Out::N(id)
+    });
+    cx.refs[d] = cx.refs[s].clone();
+    if cx.monitors && !matches!(out, Out::P(_)) {
+        let (a, b) = (cx.sets[s].as_ref().unwrap(), cx.sets[d].as_ref().unwrap());
+        if cx.sets[s].as_ref().map(dump_str) != before {
+            vio("C11", format!("HashSet::clone changed its source in [{}]", toks));
+        }
+        if a != b || b != a || sorted_kids(a.iter()) != sorted_kids(b.iter()) {
+            vio("C11", format!("HashSet::clone is not equal to its source in [{}]", toks));
+        }
+    }
+}
+fn op_clone_from(cx: &mut SCtx, d: usize, s: usize) {
+    let toks = format!("clonefrom {} {}", d, s);
+    let before = cx.sets[s].as_ref().map(dump_str);
+    let out = run(cx, toks.clone(), "clone_from", &[d, s], None, move |cx| {
+        let (a, b) = if d < s {
+            let (x, y) = cx.sets.split_at_mut(s);
+            (x[d].as_mut().unwrap(), y[0].as_ref().unwrap())
+        } else {
+            let (x, y) = cx.sets.split_at_mut(d);
+            (y[0].as_mut().unwrap(), x[s].as_ref().unwrap())
+        };
+        a.clone_from(b);
+        Out::N(a.hasher().id)
+    });
+    cx.refs[d] = cx.refs[s].clone();
+    if cx.monitors && !matches!(out, Out::P(_)) {
+        let (a, b) = (cx.sets[s].as_ref().unwrap(), cx.sets[d].as_ref().unwrap());
+        if cx.sets[s].as_ref().map(dump_str) != before {
+            vio("C11", format!("HashSet::clone_from changed its source in [{}]", toks));
+        }
+        if a != b || sorted_kids(a.iter()) != sorted_kids(b.iter()) || a.hasher() != b.hasher() {
+            vio("C11", format!("HashSet::clone_from: result differs from the source (or kept its own hasher) in [{}]", toks));
+        }
+    }
+}
+/// Extend<T> / Extend<&T> with a chosen size hint (all keys new to the set or the call small
+/// enough not to grow: see the map harness)
+fn op_extend_real(cx: &mut SCtx, s: usize, keys: Vec<u64>, hint: usize, by_ref: bool) {
+    let items: Vec<(u64, u64)> = keys.iter().map(|k| (*k, cx.kid())).collect();
+    let mut toks = format!("extend {} {} {}", s, hint, items.len());
+    for (k, kid) in &items {
+        write!(toks, " {} {} 0", k, kid).unwrap();
+    }
+    let objs: Vec<K> = items.iter().map(|(k, kid)| K::new(*k, *kid)).collect();
+    run(cx, toks.clone(), if by_ref { "extend_ref" } else { "extend" }, &[s], None, move |cx| {
+        cx.sets[s].as_mut().unwrap().extend(KIt(objs.into_iter(), hint));
+        Out::U
+    });
+    for (k, kid) in items {
+        cx.refs[s].entry(k).or_insert(kid);
+    }
+}
+/// FromIterator (the hasher is S::default())
+fn op_from_iter(cx: &mut SCtx, s: usize, keys: Vec<u64>, hint: usize) {
+    let items: Vec<(u64, u64)> = keys.iter().map(|k| (*k, cx.kid())).collect();
+    let mut toks = format!("fromiter {} {} {} {}", s, HB::default().id, hint, items.len());
+    for (k, kid) in &items {
+        write!(toks, " {} {} 0", k, kid).unwrap();
+    }
+    let objs: Vec<K> = items.iter().map(|(k, kid)| K::new(*k, *kid)).collect();
+    cx.sets[s] = None;
+    cx.refs[s].clear();
+    run(cx, toks.clone(), "from_iter", &[s], None, move |cx| {
+        cx.sets[s] = Some(KIt(objs.into_iter(), hint).collect::<Set>());
+        Out::U
+    });
+    for (k, kid) in items {
+        cx.refs[s].entry(k).or_insert(kid);
+    }
+}
+fn op_try_reserve(cx: &mut SCtx, s: usize, n: usize) {
+    let toks = format!("tryreserve {} {}", s, n);
+    let out = run(cx, toks.clone(), "try_reserve", &[s], None, |cx| Out::B(cx.sets[s].as_mut().unwrap().try_reserve(n).is_ok()));
+    if cx.monitors {
+        let m = cx.sets[s].as_ref().unwrap();
+        if out == Out::B(true) && m.capacity() < m.len() + n {
+            vio("C10", format!("HashSet::try_reserve({}) returned Ok with capacity {} < len {} + n", n, m.capacity(), m.len()));
+        }
+    }
+}
 fn op_drop(cx: &mut SCtx, s: usize) {
     run(cx, format!("drop {}", s), "drop", &[s], None, |cx| {
         cx.sets[s] = None;
@@ -700,12 +944,79 @@ pub fn history(cx: &mut SCtx, maxops: u64) {
                 let j = cx.rng.below(cx.refs[s].len() as u64 + 2);
                 op_drain(cx, s, j)
             }
-            58..=59 => {
+            58 => {
                 let ks: Vec<u64> = (0..cx.rng.below(12)).map(|_| cx.rng.below(universe + 4)).collect();
                 op_extend(cx, s, ks)
             }
-            60..=67 => drive(cx, s, &mut fresh),
-            68..=89 => {
+            59 => {
+                // a real extend(): keys all new to the set (growth inside the call is then order-independent;
+                // with tombstones the call stays within the free capacity, as in the map harness)
+                let st0 = cx.sets[s].as_ref().unwrap().verif_state();
+                let bc = if st0.main_buckets <= 8 { st0.main_buckets.saturating_sub(1) } else { st0.main_buckets / 8 * 7 };
+                let tombs = bc.saturating_sub(st0.main_cap);
+                let free0 = (st0.main_cap - st0.main_len) as u64;
+                let n = if tombs > 0 { cx.rng.below(free0.min(24) + 1) } else { cx.rng.below(24) };
+                let mut ks: Vec<u64> = Vec::new();
+                for _ in 0..n {
+                    fresh += 1;
+                    ks.push(1000 + fresh);
+                }
+                let hint = match cx.rng.below(5) {
+                    0 => 0,
+                    1 => ks.len(),
+                    2 => ks.len() / 2,
+                    3 => ks.len() * 2 + 1,
+                    _ => cx.rng.below(40) as usize,
+                };
+                op_extend_real(cx, s, ks, hint, false)
+            }
+            60..=61 => {
+                let p = 1 + cx.rng.below(4);
+                let take: Vec<u64> = cx.refs[s].keys().cloned().filter(|_| cx.rng.below(5) < p).collect();
+                let j = if cx.rng.chance(1, 2) { None } else { Some(cx.rng.below(take.len() as u64 + 2)) };
+                let forget = j.is_some() && cx.rng.chance(1, 4);
+                if forget {
+                    cx.bump("forgotten");
+                }
+                let bomb = if j.is_some() && !forget && !take.is_empty() && cx.rng.chance(1, 2) { Some(take[cx.rng.below(take.len() as u64) as usize]) } else { None };
+                op_drain_filter(cx, s, take, j, forget, bomb)
+            }
+            62 => {
+                let n = cx.refs[s].len() as u64;
+                let j = if cx.rng.chance(1, 2) { n + 3 } else { cx.rng.below(n + 1) };
+                op_into_iter(cx, s, j);
+                // the slot is rebuilt at once: FromIterator, or a fresh empty set
+                if cx.rng.chance(1, 2) {
+                    let mut ks: Vec<u64> = Vec::new();
+                    for _ in 0..cx.rng.below(30) {
+                        let k = cx.rng.below(universe + 4);
+                        if !ks.contains(&k) {
+                            ks.push(k);
+                        }
+                    }
+                    let hint = cx.rng.below(20) as usize;
+                    op_from_iter(cx, s, ks, hint);
+                } else {
+                    let hb = HB { kind: [0u8, 0, 3, 4][cx.rng.below(4) as usize], id: 1 + cx.rng.below(5) };
+                    let cap = [0usize, 0, 3, 14, 28][cx.rng.below(5) as usize];
+                    op_new(cx, s, hb, cap);
+                }
+            }
+            63 => {
+                let d = (s + 1 + cx.rng.below(NS as u64 - 1) as usize) % NS;
+                op_drop(cx, d);
+                op_clone(cx, s, d)
+            }
+            64 => {
+                let d = (s + 1 + cx.rng.below(NS as u64 - 1) as usize) % NS;
+                op_clone_from(cx, d, s)
+            }
+            65 => {
+                let n = cx.rng.below(40) as usize;
+                op_try_reserve(cx, s, n)
+            }
+            66..=69 => drive(cx, s, &mut fresh),
+            70..=89 => {
                 let kind = cx.rng.below(8);
                 let b = cx.rng.below(NS as u64) as usize;
                 let p = par_choice(cx);
